@@ -129,8 +129,12 @@ def make_watch_cases(tier, seed):
             ylines.append("        extensions: [%s]" % ", ".join("'%s'" % e for e in exts))
         resources = [{"paths": [["src"]], "exts": exts or []}]
         if exts2 is not None:
-            ylines += ["      - paths: [src/sub, src]", "        extensions: [%s]" % ", ".join("'%s'" % e for e in exts2)]
-            resources.append({"paths": [["src", "sub"], ["src"]], "exts": exts2})
+            if rng.random() < 0.5:
+                ylines += ["      - paths: [src/sub, src]", "        extensions: [%s]" % ", ".join("'%s'" % e for e in exts2)]
+                resources.append({"paths": [["src", "sub"], ["src"]], "exts": exts2})
+            else:       # a nested path with its own filter, below a listed path with another filter
+                ylines += ["      - paths: [src/sub]", "        extensions: [%s]" % ", ".join("'%s'" % e for e in exts2)]
+                resources.append({"paths": [["src", "sub"]], "exts": exts2})
         y = "\n".join(ylines) + "\n"
         ops, mops = [], []
         created = []
